@@ -88,8 +88,51 @@ package nasConvert
 //@   loop 0 decreases lengthOfBuf - offset
 //@ end
 
-//@ func SnssaiToModels(n) (r)
-//@   requires n != nil
+// ---- C13: S-NSSAI entries (TS 24.501 9.11.2.8, 9.11.3.46) ----
+// S-NSSAI value: length (1 = SST, 4 = SST and SD), SST, SD (3 octets); the text form of SD is 6 hexadecimal digits.
+//@ define SdOK(sd) := (len(sd) == 0 || (len(sd) == 6 && AllHex6(sd, 0)))
+//@ define Unhex(s, o) := ((HexV(s[o]) << 4) | HexV(s[o+1]))
+//@ func SnssaiToModels(nasSnssai) (r)
+//@   requires nasSnssai != nil
+//@   assigns nothing
+//@   ensures r.Sst == int32(nasSnssai.Octet[0])
+//@   ensures implies(nasSnssai.Len == 4, len(r.Sd) == 6 && HexOf(r.Sd, 0, nasSnssai.Octet[1]) && HexOf(r.Sd, 2, nasSnssai.Octet[2]) && HexOf(r.Sd, 4, nasSnssai.Octet[3]))
+//@   ensures implies(nasSnssai.Len == 1, len(r.Sd) == 0)
+//@ end
+
+//@ func SnssaiToNas(snssai) (buf)
+//@   lencase snssai.Sd 0 6
+//@   lenonly
+//@   requires SdOK(snssai.Sd)
+//@   ensures fresh(buf)
+//@   ensures implies(len(snssai.Sd) == 0, len(buf) == 2 && buf[0] == 1 && buf[1] == uint8(snssai.Sst))
+//@   ensures implies(len(snssai.Sd) == 6, len(buf) == 5 && buf[0] == 4 && buf[1] == uint8(snssai.Sst) && buf[2] == Unhex(snssai.Sd, 0) && buf[3] == Unhex(snssai.Sd, 2) && buf[4] == Unhex(snssai.Sd, 4))
+//@ end
+
+// Rejected S-NSSAI: length of the entry in bits 8..5 and the cause in bits 4..1 of the first octet.
+//@ func RejectedSnssaiToNas(snssai, rejectCause) (buf)
+//@   lencase snssai.Sd 0 6
+//@   lenonly
+//@   requires SdOK(snssai.Sd) && rejectCause < 16
+//@   ensures fresh(buf)
+//@   ensures implies(len(snssai.Sd) == 0, len(buf) == 2 && buf[0] == (1 << 4) | rejectCause && buf[1] == uint8(snssai.Sst))
+//@   ensures implies(len(snssai.Sd) == 6, len(buf) == 5 && buf[0] == (4 << 4) | rejectCause && buf[1] == uint8(snssai.Sst) && buf[2] == Unhex(snssai.Sd, 0) && buf[3] == Unhex(snssai.Sd, 2) && buf[4] == Unhex(snssai.Sd, 4))
+//@ end
+
+// One entry of an NSSAI: buf[0] is the length octet (already read into lengthOfSnssaiContents), contents follow.
+//@ define SdAt(sd, buf, o) := (len(sd) == 6 && HexOf(sd, 0, buf[o]) && HexOf(sd, 2, buf[o+1]) && HexOf(sd, 4, buf[o+2]))
+//@ define SnLenOK(l) := ((l) == 1 || (l) == 2 || (l) == 4 || (l) == 5 || (l) == 8)
+//@ func snssaiToModels(lengthOfSnssaiContents, buf) (r, err)
+//@   assigns nothing
+//@   ensures implies(!SnLenOK(lengthOfSnssaiContents) || len(buf) < int(lengthOfSnssaiContents) + 1, err != nil)
+//@   ensures implies(err == nil, SnLenOK(lengthOfSnssaiContents) && len(buf) >= int(lengthOfSnssaiContents) + 1)
+//@   ensures implies(SnLenOK(lengthOfSnssaiContents) && len(buf) >= int(lengthOfSnssaiContents) + 1, err == nil && r.ServingSnssai != nil && r.ServingSnssai.Sst == int32(buf[1]))
+//@   ensures implies(err == nil && (lengthOfSnssaiContents == 1 || lengthOfSnssaiContents == 2), len(r.ServingSnssai.Sd) == 0)
+//@   ensures implies(err == nil && lengthOfSnssaiContents >= 4, SdAt(r.ServingSnssai.Sd, buf, 2))
+//@   ensures implies(err == nil && (lengthOfSnssaiContents == 1 || lengthOfSnssaiContents == 4), r.HomeSnssai == nil)
+//@   ensures implies(err == nil && lengthOfSnssaiContents == 2, r.HomeSnssai != nil && r.HomeSnssai.Sst == int32(buf[2]) && len(r.HomeSnssai.Sd) == 0)
+//@   ensures implies(err == nil && lengthOfSnssaiContents == 5, r.HomeSnssai != nil && r.HomeSnssai.Sst == int32(buf[5]) && len(r.HomeSnssai.Sd) == 0)
+//@   ensures implies(err == nil && lengthOfSnssaiContents == 8, r.HomeSnssai != nil && r.HomeSnssai.Sst == int32(buf[5]) && SdAt(r.HomeSnssai.Sd, buf, 6))
 //@ end
 
 //@ func LadnToModels(buf) (dnnValues)
